@@ -61,6 +61,8 @@ fn main() {
     }
     let tier_s = args.get(1).cloned().or_else(|| std::env::var("VERIF_TIER").ok()).unwrap_or_else(|| "quick".into());
     let tier = if tier_s == "thorough" { Tier::Thorough } else { Tier::Quick };
+    // SAFETY: single-threaded at this point; read by checks that are deliberately more tolerant in the thorough tier
+    unsafe { std::env::set_var("VERIF_TIER_EFFECTIVE", tier.name()) };
     let ctx = RunCtx { tier, seed, verif_root };
     // global watchdog: a hang is INCONCLUSIVE, never a violation
     let limit = std::env::var("VERIF_WATCHDOG_S").ok().and_then(|s| s.parse().ok()).unwrap_or(tier.pick(3600u64, 6 * 3600));
